@@ -69,6 +69,10 @@ func (p *Policy) ToAST() *ast.Policy {
 	case ScIn:
 		out.ActionIn(uid(s.Ent))
 	case ScInSet:
+		if len(s.Ents) == 0 {
+			out.ActionInSet()
+			break
+		}
 		us := make([]types.EntityUID, len(s.Ents))
 		for i, e := range s.Ents {
 			us[i] = uid(e)
